@@ -410,7 +410,7 @@ MANIFEST = dict(
          "(TPL: image or palette data) as located by the file's own tables; the four boolean checkers conforms_*b are sound; finding F23 is kept as a "
          "witness theorem (a conforming CGFX file with backward offsets on which the pre-repair sum panics in the checked mode). The models are tied "
          "to /repo on every run: containers from an independent Python writer with placement knobs (incl. backward CGFX offsets) that the extracted "
-         "verified checkers accepted, read whole (full pixel data) and at EVERY prefix length, wrong magic numbers, the number of payload bytes "
+         "verified checkers accepted, read whole (full pixel data) and at EVERY prefix length for files up to 2 KiB in the quick tier and 6 KiB in the thorough tier (larger files: whole file only), wrong magic numbers, the number of payload bytes "
          "requested around the binary32 exactness boundary (8..32 MiB payloads built by the harness), the Shift-JIS table against encoding_rs on all "
          "one- and two-byte strings, debug and release builds; the oracle (count, order, names, dimensions, pixels by the reference decoders of "
          "gen/texref.py; no PANIC/ABORT on any prefix, Err when a payload byte is missing; binary32 rounding by struct.pack) is independent of the Coq model.",
